@@ -76,6 +76,37 @@ def gen(tier, rng, harness=None):
     return lines
 
 
+def graph_text(desc):
+    """the module text of a `md.graph` descriptor (same rendering as the harness op)"""
+    out = []
+    for s_ in desc.split():
+        p = s_.split(":", 1)
+        refs = [r for r in (p[1].split(",") if len(p) > 1 and p[1] else [])]
+        if p[0].startswith("N"):
+            out.append("!%s = !{%s}" % (bytes.fromhex(p[0][1:]).decode(), ", ".join("!" + r for r in refs)))
+            continue
+        dist = p[0].endswith("d")
+        i = p[0][:-1] if dist else p[0]
+        fs = [{"n": "null", "s": '!"str"', "i": "!{}"}.get(r, "!" + r) for r in refs]
+        out.append("!%s = %s!{%s}" % (i, "distinct " if dist else "", ", ".join(fs)))
+    return "\n".join(out) + "\n"
+
+
+def extra(res, findings, tier, rng, harness, driver):
+    """LLVM 14 as the reader of metadata graphs: the graph LLVM builds from the input and from llir's output must be the same up to numbering and order
+    (structural hashes refined over references: distinct nodes, sharing and cycles are told apart)"""
+    from . import refstage, catalog
+    texts = []
+    for i in range(150 if tier == "quick" else 5000):
+        g = gen_graph(rng)
+        t = graph_text(g)
+        # everything must be reachable for LLVM to keep it: one named metadata node listing every definition
+        ids = [l.split(" ")[0] for l in t.split("\n") if l and l[1].isdigit()]
+        texts.append(("graph-%d" % i, t + "!keep = !{%s}\n" % ", ".join(ids)))
+    texts += [(n, t) for n, t, _ in catalog.DI if "splitDebugInlining" not in n]
+    return refstage.run(res, findings, harness, "C17", texts)
+
+
 def nontrivial(ln, model_out):
     p = ln.split()
     if p[0].endswith("md.graph"):
